@@ -77,6 +77,15 @@ class AsyncQueue[Element](AsyncIterator[Element]):
             # wait for the result
             return await self._waiting
 
+        except CancelledError:
+            # consumer cancelled after an element was already handed over - put it back
+            waiting: Future[Element] | None = self._waiting
+            if waiting is not None and waiting.done() and not waiting.cancelled():
+                if waiting.exception() is None:
+                    self._queue.appendleft(waiting.result())
+
+            raise
+
         finally:
             # cleanup
             self._waiting = None
